@@ -30,6 +30,14 @@ static bool find_v(const expression_t& e, symbol_t& out)
     for (size_t k = 0; k < e.get_size(); k++) if (find_v(e.get(k), out)) return true;
     return false;
 }
+static bool find_v_last(const expression_t& e, symbol_t& out)
+{
+    if (e.empty()) return false;
+    bool f = false;
+    if (e.get_kind() == IDENTIFIER && e.get_symbol() != symbol_t() && e.get_symbol().get_name() == "v") { out = e.get_symbol(); f = true; }
+    for (size_t k = 0; k < e.get_size(); k++) if (find_v_last(e.get(k), out)) f = true;
+    return f;
+}
 static variable_t* var_named(std::list<variable_t>& vs, const char* n) { for (auto& x : vs) if (x.uid.get_name() == n) return &x; return nullptr; }
 
 extern "C" void harness_scopes()  /* vf: bounds=name_declared_at_any_subset_of_9_scope_levels(global_early/late,template_parameter|local,function_parameter|local,block,for-iteration,select,quantifier)_x_12_use_sites_x_nested_brace-less_iteration_x_3_quantifier_kinds_x_closed_quantifiers_in_declarations reach=end */
@@ -139,15 +147,81 @@ extern "C" void harness_scopes()  /* vf: bounds=name_declared_at_any_subset_of_9
     vf_assert(level_of(sym) == want, "binds-to-innermost-preceding-declaration");
 }
 
+// binding after a binder construct that is itself rejected: a quantifier, select or iteration whose domain is no integer range or scalar set
+// is reported, and every later identifier still binds as the scopes say (the rejected construct must not leave a scope open or close one too many)
+extern "C" void harness_scopes_after_rejected_binder()  /* vf: bounds=rejected_binder_construct(forall/exists/sum_over_bool,clock,chan,struct;select_over_bool)_x_4_later_use_sites(same_label,later_label_of_the_edge,next_edge,later_statement)_x_name_declared_at_subsets_of(global,template-local,select-binder,function-local) reach=end */
+{
+    int bad = vf_pick("!rejected_binder", 9), use = vf_pick("!use", 4);
+    bool hg = vf_pick("!has_global", 2), htl = vf_pick("!has_template-local", 2), hsb = vf_pick("!has_select-binder", 2), hfl = vf_pick("!has_function-local", 2);
+    static const char* BAD[] = {"forall (zb : bool) true", "exists (zb : clock) true", "(sum (zb : chan) 1) >= 0", "forall (zb : S_t) true", "exists (zb : bool) zb", "forall (v : bool) true",
+                                "forall (zb : double) true", "(sum (zb : bool) 1) >= 0", "", ""};
+    bool in_select = bad == 8, in_loop = bad == 9;
+    vf_assume(!in_loop || use == 3);            // the iteration lives in the function; its later statement is the use
+    vf_assume(in_loop || use != 3 || bad < 2);   // the function's own quantifier variants: two suffice
+    std::string s;
+    if (hg) s += rng(G) + " v = 0;\n";
+    s += "int w; bool ok; typedef struct { int f; } S_t; chan c;\n";
+    s += "process P() {\n";
+    if (htl) s += " " + rng(TL) + " v = 0;\n";
+    s += " int f() {\n";
+    if (hfl) s += "  " + rng(FL) + " v = 0;\n";
+    if (in_loop) s += "  for (zi : clock) { w = 0; }\n";
+    else if (use == 3) s += std::string("  ok = ") + BAD[bad] + ";\n";
+    s += std::string("  { int u = ") + (use == 3 ? "v" : "w") + "; }\n  return 0;\n }\n";
+    s += " state A, B;\n init A;\n";
+    // edge 1 carries the rejected construct, edge 2 is untouched
+    std::string sel = std::string(" select ") + (in_select ? "zs : bool, " : "") + nm(hsb, "sb") + " : " + brng(SB) + ";";
+    std::string g = (use != 3 && !in_select) ? std::string("(") + BAD[bad] + ")" : std::string("w >= 0");
+    s += " trans A -> B {" + sel + " guard " + g + (use == 0 ? " && v >= 0" : "") + "; assign w = " + (use == 1 ? "v" : "1") + "; },\n";
+    s += std::string("  B -> A { guard ") + (use == 2 ? "v >= 0" : "w >= 0") + "; };\n}\nsystem P;\n";
+    std::vector<int> vis;
+    switch (use) { case 0: case 1: vis = {SB, TL, G}; break; case 2: vis = {TL, G}; break; default: vis = {FL, TL, G}; break; }
+    bool has[NLEV] = {}; has[G] = hg; has[TL] = htl; has[SB] = hsb; has[FL] = hfl;
+    int want = -1;
+    for (int l : vis) if (has[l]) { want = l; break; }
+    Document doc; DocumentBuilder b(doc);
+    bool threw = false;
+    try { parse_XTA(s.c_str(), &b, true); } catch (std::exception& ex) { threw = true; vf_note(ex.what()); }
+    vf_note(s.c_str()); vf_notei("expected_level", want); note_errors(doc);
+    vf_reach("end");
+    vf_assert(!threw, "parse-returns");
+    if (threw) return;
+    vf_assert(doc.has_errors(), "rejected-binder-reported");
+    bool unknown = false;
+    for (auto& e : doc.get_errors()) if (e.msg.find("$Unknown_identifier") != std::string::npos && e.msg.find("v") != std::string::npos) unknown = true;
+    if (want < 0) { vf_assert(unknown, "undeclared-name-reported-as-unknown"); return; }
+    vf_assert(!unknown, "declared-name-not-reported-as-unknown");
+    vf_assert(doc.get_templates().size() == 1, "template-built");
+    if (doc.get_templates().size() != 1) return;
+    template_t& t = doc.get_templates().front();
+    expression_t e;
+    if (use == 3) { if (!t.functions.empty()) { auto* u = var_named(t.functions.front().variables, "u"); if (u) e = u->init; } }
+    else if (use == 2) { if (t.edges.size() == 2) e = t.edges.back().guard; }
+    else if (use == 1) { if (!t.edges.empty()) e = t.edges.front().assign; }
+    else if (!t.edges.empty()) e = t.edges.front().guard;
+    symbol_t sym;
+    bool found = find_v_last(e, sym);
+    vf_assert(found, "use-site-found");
+    if (!found) return;
+    vf_notei("bound_level", level_of(sym));
+    vf_assert(level_of(sym) == want, "binds-to-innermost-preceding-declaration");
+}
+
 // process-qualified names in queries: P.x binds to the declaration x of P's template with P's arguments substituted
-extern "C" void harness_process_qualified()  /* vf: bounds=query_use_sites_with/without_process_qualification;member_declared_in_template/global/both;two_processes_with_different_arguments;member_type_depends_on_parameter */
+extern "C" void harness_process_qualified()  /* vf: bounds=query_use_sites_with/without_process_qualification;member_declared_in_template/global/both;two_processes_with_different_arguments;member_type_depends_on_two_parameters_bound_along_3_routes(direct,partial_instantiation,chain_of_two) */
 {
     bool tl = vf_pick("!template_declares", 2), gl = vf_pick("!global_declares", 2), qualified = vf_pick("!qualified", 2), second = vf_pick("!second_process", 2), arr = vf_pick("!array_member", 2);
     std::string s;
     if (gl) s += rng(G) + " v = 0;\n";
-    s += "process P(const int n) {\n";
-    if (tl) s += arr ? " int[0,12] v[n];\n" : " int[0,n] v;\n";
-    s += " state A; init A;\n}\nP1 = P(3); P2 = P(5);\nsystem P1, P2;\n";
+    // the processes get their arguments directly, through one partial instantiation, or through a chain of two (each step binds one parameter)
+    int route = vf_pick("!route", 3);
+    s += "process P(const int lo, const int n) {\n";
+    if (tl) s += arr ? " int[0,12] v[n];\n" : " int[lo,n] v;\n";
+    s += " state A; init A;\n}\n";
+    if (route == 0) s += "P1 = P(1, 3); P2 = P(1, 5);\n";
+    else if (route == 1) s += "Q(const int k) = P(1, k); P1 = Q(3); P2 = Q(5);\n";
+    else s += "Q(const int k, const int l) = P(l, k); R(const int j) = Q(j, 1); P1 = R(3); P2 = R(5);\n";
+    s += "system P1, P2;\n";
     Model m;
     bool ok = m.load(s);
     vf_assert(ok, "model-accepted");
@@ -188,9 +262,9 @@ extern "C" void harness_process_qualified()  /* vf: bounds=query_use_sites_with/
         while (!ty.unknown() && ty.get_kind() != RANGE && ty.size() > 0) ty = ty[0];
         vf_assert(!ty.unknown() && ty.get_kind() == RANGE, "member-has-range-type");
         auto r = ty.get_range();
-        std::string up = xs(r.second);
-        vf_note(up.c_str());
-        vf_assert(up == std::to_string(want), "argument-substituted-in-member-type");
+        std::string up = xs(r.second), lowb = xs(r.first);
+        vf_note(lowb.c_str()); vf_note(up.c_str());
+        vf_assert(up == std::to_string(want) && lowb == "1", "argument-substituted-in-member-type");
     } else {
         while (!ty.unknown() && ty.get_kind() != ARRAY && ty.size() > 0) ty = ty[0];
         vf_assert(!ty.unknown() && ty.get_kind() == ARRAY, "member-has-array-type");
